@@ -24,7 +24,7 @@ RULE = ("generated file-based scenarios run through the real handlers (EventfulH
         "once; pickup wait in [0, timeout + step]; charge events obtained through get_events()/clear() cycles partition the log's charge events. "
         "non-trivial = run with a pickup, drop-off, cancellation, charge and move, and two vehicles charging at one station in one step; distinct = sha1(case)")
 ASSUMPTIONS = ["a 'step' of the log is one flush of the reporter (block of station_load lines followed by that flush's events)",
-               "all event types enabled in log_sim_config (the shipped default)", "PYTHONHASHSEED pinned to 0"]
+               "log_sim_config is the shipped default (everything) in two thirds of the runs and a generated subset in the rest; a record type that is not selected is reconciled from the reports the harness' own handler captured", "PYTHONHASHSEED pinned to 0"]
 FLOORS = {"quick": {"log_lines": 14000, "flag:pickup": 28, "flag:charge": 30, "flag:two_charging_one_station": 5}, "thorough": {"log_lines": 500000}}
 
 PROFILE = profile(nv=(2, 6), n_requests=(10, 60), builtin=[True], n_scripted=[1], socs=[0.05, 0.1, 0.12, 0.3, 0.8, 0.97], prices_always=True,
@@ -41,9 +41,16 @@ DOC_KEYS = {
 }
 
 
+LOGGABLE = ["add_request_event", "pickup_request_event", "dropoff_request_event", "cancel_request_event", "vehicle_charge_event",
+            "vehicle_move_event", "station_load_event", "driver_schedule_event", "refuel_search_event"]
+
+
 @st.composite
 def st_case(draw) -> Dict[str, Any]:
     w = draw(st_world(PROFILE))
+    # which report types the user wants in event.log is configuration (log_sim_config in .hive.yaml; default: all)
+    if draw(st.sampled_from([False, False, True])):
+        w["log_types"] = sorted(draw(st.sets(st.sampled_from(LOGGABLE), min_size=1)) | draw(st.sampled_from([set(), {"station_load_event"}])))
     return {"world": w, "nsteps": draw(st.integers(20, 120)), "window": draw(st.integers(1, 15)), "det": draw(st.booleans())}
 
 
@@ -188,10 +195,14 @@ def check_case(case: Dict[str, Any]) -> Tuple[List[Violation], Set[str], Dict[st
             lines.append(rec)
         stats["log_lines"] += len(lines)
         cnt = collections.Counter(l["report_type"] for l in lines)
-        captured = collections.Counter(t_.lower() for step in cap.steps for t_, _ in step if t_ != "INSTRUCTION")
+        reported = collections.Counter(t_.lower() for step in cap.steps for t_, _ in step if t_ != "INSTRUCTION")
+        logged = set(w["log_types"]) if w.get("log_types") is not None else None  # None: everything (the shipped default)
+        if logged is not None:
+            flags.add("custom_log_sim_config")
+        captured = collections.Counter({rt: n_ for rt, n_ in reported.items() if logged is None or rt in logged})
         for rt in set(cnt) | set(captured):
-            if rt != "station_load_event" and cnt[rt] != captured[rt]:
-                out.append(Violation(PROP, f"log holds {rt} records {'more' if cnt[rt] > captured[rt] else 'less'} often than they were reported", {"log": cnt[rt], "reported": captured[rt]}))
+            if (rt != "station_load_event" or not (logged is None or rt in logged)) and cnt[rt] != captured[rt]:
+                out.append(Violation(PROP, f"log holds {rt} records {'more' if cnt[rt] > captured[rt] else 'less'} often than they were reported", {"log": cnt[rt], "reported": captured[rt], "log_sim_config": sorted(logged) if logged is not None else "default"}))
         mv, chg = collections.defaultdict(float), collections.defaultdict(float)
         for l in lines:
             if l["report_type"] == "vehicle_move_event":
@@ -199,6 +210,10 @@ def check_case(case: Dict[str, Any]) -> Tuple[List[Violation], Set[str], Dict[st
             elif l["report_type"] == "vehicle_charge_event":
                 chg[l["vehicle_id"]] += float(l["energy"])
         for v in rp.s.vehicles.values():
+            if logged is not None and "vehicle_move_event" not in logged:
+                mv[v.id] = v.distance_traveled_km  # not logged by the user's choice
+            if logged is not None and "vehicle_charge_event" not in logged:
+                chg[v.id] = sum(v.energy_gained.values())
             if abs(mv[v.id] - v.distance_traveled_km) > TOL:
                 out.append(Violation(PROP, "sum of logged move distances != odometer", {"vehicle": v.id, "log": mv[v.id], "odometer": v.distance_traveled_km}))
             if abs(chg[v.id] - sum(v.energy_gained.values())) > TOL:
@@ -206,7 +221,8 @@ def check_case(case: Dict[str, Any]) -> Tuple[List[Violation], Set[str], Dict[st
         # station load per flush block
         blocks: List[Tuple[Dict[str, float], Dict[str, float]]] = []
         prev_load = False
-        for l in lines:
+        load_selected = logged is None or "station_load_event" in logged
+        for l in (lines if load_selected else ()):
             is_load = l["report_type"] == "station_load_event"
             if is_load and (not prev_load or l["station_id"] in blocks[-1][0]):
                 blocks.append((collections.defaultdict(float), collections.defaultdict(float)))
@@ -218,7 +234,16 @@ def check_case(case: Dict[str, Any]) -> Tuple[List[Violation], Set[str], Dict[st
             elif l["report_type"] == "vehicle_charge_event":
                 blocks[-1][1][l["station_id"]] += float(l["energy"])
             prev_load = is_load
-        if len(blocks) != case["nsteps"] and rp.s.stations:
+        if not load_selected:
+            pass  # (a station load record in the log would already have been reported by the count comparison above)
+        elif len(blocks) == case["nsteps"]:
+            # the load of a step is the sum of the charge events *reported* in it, whether or not those are themselves logged
+            for bi, (load, ce) in enumerate(blocks):
+                ce.clear()
+                for t_, e in cap.steps[bi]:
+                    if t_ == "VEHICLE_CHARGE_EVENT":
+                        ce[e["station_id"]] += float(e["energy"])
+        if load_selected and len(blocks) != case["nsteps"] and rp.s.stations:
             out.append(Violation(PROP, "number of station-load blocks != number of steps", {"blocks": len(blocks), "steps": case["nsteps"]}))
         for bi, (load, ce) in enumerate(blocks):
             for sid in set(load) | set(ce):
@@ -229,6 +254,7 @@ def check_case(case: Dict[str, Any]) -> Tuple[List[Violation], Set[str], Dict[st
                 out.append(Violation(PROP, "station load block does not list every station exactly once", {"block": bi}))
             if out:
                 break
+        cnt = collections.Counter({rt: (cnt[rt] if logged is None or rt in logged else reported[rt]) for rt in set(cnt) | set(reported)})
         if sh.stats.requests != cnt["add_request_event"] or sh.stats.cancelled_requests != cnt["cancel_request_event"]:
             out.append(Violation(PROP, "summary request/cancellation counts != add/cancel events", {"summary": [sh.stats.requests, sh.stats.cancelled_requests], "log": [cnt["add_request_event"], cnt["cancel_request_event"]]}))
         want_pct = (1 - cnt["cancel_request_event"] / cnt["add_request_event"]) if cnt["add_request_event"] else 0.0
